@@ -197,17 +197,33 @@ impl<W: 'static, R: 'static, T: 'static> XGenerator<W, R, T> {
                 })
             }),
             Self::Slice(gen, start, end) => either_g({
+                let budget = rt.limits.search_iter();
                 let inner: BIter<_, _, _> = Box::new(to_native!(gen, Self)._iter(ns, rt));
+                // skipped elements are examined too: they consume the search budget
+                let start = *start;
+                let skipped = inner
+                    .zip(budget)
+                    .enumerate()
+                    .filter_map(move |(idx, (i, s))| {
+                        if let Err(violation) = s {
+                            return Some(Err(violation));
+                        }
+                        (idx >= start).then_some(i)
+                    });
                 if let Some(end) = end {
-                    Either::Left(inner.skip(*start).take(end.saturating_sub(*start)))
+                    Either::Left(skipped.take(end.saturating_sub(start)))
                 } else {
-                    Either::Right(inner.skip(*start))
+                    Either::Right(skipped)
                 }
             }),
             Self::Filter(gen, func) => either_h({
                 let inner: BIter<_, _, _> = Box::new(to_native!(gen, Self)._iter(ns, rt.clone()));
                 let f = to_primitive!(func, Function);
-                inner.filter_map(move |i| {
+                // rejected elements are examined too: they consume the search budget
+                inner.zip(rt.limits.search_iter()).filter_map(move |(i, s)| {
+                    if let Err(violation) = s {
+                        return Some(Err(violation));
+                    }
                     let Ok(value) = i else { return Some(i); };
                     let guard =
                         match ns.eval_func_with_values(f, vec![value.clone()], rt.clone(), false) {
@@ -249,9 +265,14 @@ impl<W: 'static, R: 'static, T: 'static> XGenerator<W, R, T> {
                 let inner: BIter<_, _, _> = Box::new(to_native!(gen, Self)._iter(ns, rt.clone()));
                 let f = to_primitive!(func, Function);
                 let mut found_first = false;
+                // skipped elements are examined too: they consume the search budget
+                let mut budget = rt.limits.search_iter();
                 inner.filter_map(move |i| {
                     if found_first {
                         return Some(i);
+                    }
+                    if let Some(Err(violation)) = budget.next() {
+                        return Some(Err(violation));
                     }
                     let Ok(value) = i else { return Some(i); };
                     let guard =
